@@ -22,8 +22,9 @@ func init() { props["C04"] = c04 }
 
 type addrForm struct {
 	Name string
-	Peer string   // TCP peer (host:port)
-	XFF  []string // header lines (nil = header absent)
+	Peer string      // TCP peer (host:port)
+	XFF  []string    // header lines (nil = header absent)
+	Hdr  [][2]string // other request headers (the property names X-Forwarded-For and the TCP peer: nothing else counts)
 }
 
 // refClientIP: first X-Forwarded-For element (trimmed) when the first header line is non-empty, else the peer's host part.
@@ -64,6 +65,11 @@ func c04Forms() []addrForm {
 		addrForm{Name: "xff-two-lines-rev", Peer: "192.0.2.1:443", XFF: []string{"10.0.0.2", "10.0.0.1"}},
 		addrForm{Name: "xff-equals-proxy-peer", Peer: "10.0.0.1:443", XFF: []string{"10.0.0.2"}},
 		addrForm{Name: "peer-other-port", Peer: "10.0.0.1:1"},
+		// other headers that proxies use for the client address do not count: the client is the TCP peer
+		addrForm{Name: "x-real-ip=10.0.0.1,peer=10.0.0.3", Peer: "10.0.0.3:50000", Hdr: [][2]string{{"X-Real-IP", "10.0.0.1"}}},
+		addrForm{Name: "x-real-ip=10.0.0.1,peer=10.0.0.4", Peer: "10.0.0.4:50000", Hdr: [][2]string{{"X-Real-Ip", "10.0.0.1"}}},
+		addrForm{Name: "forwarded-for=10.0.0.1,peer=10.0.0.3", Peer: "10.0.0.3:50000", Hdr: [][2]string{{"Forwarded", "for=10.0.0.1;proto=https"}}},
+		addrForm{Name: "client-ip-headers=10.0.0.1,peer=10.0.0.4", Peer: "10.0.0.4:50000", Hdr: [][2]string{{"X-Client-Ip", "10.0.0.1"}, {"True-Client-Ip", "10.0.0.1"}, {"Cf-Connecting-Ip", "10.0.0.1"}, {"X-Forwarded", "10.0.0.1"}, {"X-Cluster-Client-Ip", "10.0.0.1"}}},
 		// long proxy chains: the client is the first element however many follow
 		addrForm{Name: "xff12=10.0.0.1,11-proxies", Peer: "192.0.2.1:443", XFF: []string{"10.0.0.1, 192.0.2.11, 192.0.2.12, 192.0.2.13, 192.0.2.14, 192.0.2.15, 192.0.2.16, 192.0.2.17, 192.0.2.18, 192.0.2.19, 192.0.2.20, 192.0.2.21"}},
 		addrForm{Name: "xff12=10.0.0.2,11-proxies", Peer: "192.0.2.1:443", XFF: []string{"10.0.0.2, 192.0.2.11, 192.0.2.12, 192.0.2.13, 192.0.2.14, 192.0.2.15, 192.0.2.16, 192.0.2.17, 192.0.2.18, 192.0.2.19, 192.0.2.20, 192.0.2.21"}},
@@ -80,6 +86,9 @@ func c04Header(f addrForm) http.Header {
 	h := http.Header{}
 	for _, l := range f.XFF {
 		h["X-Forwarded-For"] = append(h["X-Forwarded-For"], l)
+	}
+	for _, kv := range f.Hdr {
+		h[kv[0]] = append(h[kv[0]], kv[1])
 	}
 	return h
 }
